@@ -128,7 +128,17 @@ fn case_strategy_with(max_frames: u8, port_reads: bool) -> impl Strategy<Value =
         any::<u32>(),
         proptest::collection::vec(1u8..=max_frames, 1..=6),
     )
-        .prop_map(move |(machine, placement, bank, body, handler, handler_ends_with_ei, handler_reti, im, iff, start_t, calls)| Case {
+        .prop_map(move |(machine, placement, bank, mut body, handler, handler_ends_with_ei, handler_reti, im, iff, start_t, calls)| {
+            // programs that do not live in the paged window also write the paging port (values incl. the
+            // lock bit; once locked every later pass of the loop issues ignored writes): an OUT takes its
+            // time whether the latch accepts it or not
+            if placement % 3 != 2 && start_t % 3 == 0 {
+                for k in 0..(start_t >> 4) % 3 + 1 {
+                    let v = (start_t >> (8 + 8 * k)) as u8;
+                    body.extend_from_slice(&[0x01, 0xFD, 0x7F, 0x3E, v, 0xED, 0x79]);
+                }
+            }
+            Case {
             machine,
             placement,
             bank,
@@ -142,6 +152,7 @@ fn case_strategy_with(max_frames: u8, port_reads: bool) -> impl Strategy<Value =
             extender: calls.len() % 3 == 0 && port_reads,
             calls,
             tape: 0,
+            }
         })
 }
 
@@ -440,7 +451,7 @@ pub fn replay(run: &mut Run, phase: &str, case: &serde_json::Value) -> Result<()
 }
 
 pub const LEVEL: &str = "exploration";
-pub const RULE: &str = "case = machine x program (loop of 1..40 generated blocks: ALU, loads, stack, HALT, EI/DI, DJNZ delays, LDIR, contended screen traffic, ULA port I/O) placed in uncontended, contended or paged RAM x interrupt handler (short filler+[EI]+RET that may re-enter within one pulse, or a self-counting handler of 0..1200 NOPs) x IM 0/1/2 x start T-state x 1..6 emulate_frames calls of 1..200 frames each; after EVERY call the emulator's (frame counter, frame clock, registers, halted) must equal the reference machine, whose clock is a single monotone T-state counter (frame = T div length, INT asserted iff T mod length < 32); all RAM compared at the end; in a third of the cases a host I/O extender claims the ports xxFE the programs use. programs-with-a-tape-playing: the same with a tape playing in real time (programs without port reads), in half of the cases a tape whose first block is empty, so that emulate_frames returns a tape error once and the host carries on with the remaining frames — time must be conserved all the same. evaluations = emulate_frames calls compared. non-trivial = run of >= 2 frames in which >= 1 instruction straddled a frame end with non-zero overrun; distinct = hash of the case";
+pub const RULE: &str = "case = machine x program (loop of 1..40 generated blocks: ALU, loads, stack, HALT, EI/DI, DJNZ delays, LDIR, contended screen traffic, ULA port I/O, paging-port writes incl. the lock bit and writes after the lock) placed in uncontended, contended or paged RAM x interrupt handler (short filler+[EI]+RET that may re-enter within one pulse, or a self-counting handler of 0..1200 NOPs) x IM 0/1/2 x start T-state x 1..6 emulate_frames calls of 1..200 frames each; after EVERY call the emulator's (frame counter, frame clock, registers, halted) must equal the reference machine, whose clock is a single monotone T-state counter (frame = T div length, INT asserted iff T mod length < 32); all RAM compared at the end; in a third of the cases a host I/O extender claims the ports xxFE the programs use. programs-with-a-tape-playing: the same with a tape playing in real time (programs without port reads), in half of the cases a tape whose first block is empty, so that emulate_frames returns a tape error once and the host carries on with the remaining frames — time must be conserved all the same. evaluations = emulate_frames calls compared. non-trivial = run of >= 2 frames in which >= 1 instruction straddled a frame end with non-zero overrun; distinct = hash of the case";
 pub const ASSUMPTIONS: &[&str] = &[
     "reference Z80 + contention model trusted (calibration, C03, C04)",
     "programs contain no prefix chains and no reads from unclaimed ports, so one emulate() call = optional interrupt entry + one instruction",
